@@ -1874,6 +1874,10 @@ Htrunc(int32 aid, int32 trunc_len)
     if (access_rec->special)
         HGOTO_ERROR(DFE_ARGS, FAIL);
 
+    /* an element cannot have a negative length */
+    if (trunc_len < 0)
+        HGOTO_ERROR(DFE_ARGS, FAIL);
+
         /* Dunno about truncating special elements... -QAK */
 #ifdef DONT_KNOW
     /* if special elt, call special function */
